@@ -670,6 +670,9 @@ class TupleType(Type):
             return True
         seen.add(self)
         if type(self) == type(other) or any(parent.is_subtype(other, seen, indent + 1) for parent in self.parents):
+            # No element types means a tuple of unknown shape; otherwise, the lengths must agree
+            if self.element_types and other.element_types and len(self.element_types) != len(other.element_types):
+                return False
             return all(e.is_subtype(e2, seen, indent+1)
                        for e, e2 in zip(self.element_types, other.element_types))
         return False
